@@ -54,6 +54,10 @@ fn plans(tier: &str, manual: bool) -> Vec<Plan> {
             depth: 0,
         },
     ];
+    if !manual {
+        // journal ids with different digit counts (9.jnl sealed, 10.jnl active): the synced overwrite in 10.jnl must win
+        v.push(Plan { fixed: Some(vec![vec!["persist SyncAll", "ins y.b=1"]]), name: "auto/journals-9-and-10", cfg: d.clone(), prefix: "journals_9_and_10", alpha: Alpha::empty(), depth: 0 });
+    }
     if !manual || !q {
         v.push(Plan { fixed: None, name: if manual { "manual/single-writer-tx" } else { "auto/single-writer-tx" }, cfg: Cfg { kind: DbKind::SingleWriter, ..d.clone() }, prefix: "", alpha: { let mut a = alpha(true, false); a.extra.retain(|o| matches!(o, Op::TxD(..) | Op::Persist { mode: 2 })); a.jrot = false; a }, depth: if q { 2 } else { 3 } });
     }
@@ -74,7 +78,10 @@ pub fn run(tier: &str) -> i32 {
     crash_explore_mode(&mut o, &plans(tier, true), Instant::now() + s(if q { 14.0 } else { 400.0 }), q, 0, "powerloss_manual_", CrashMode::PowerLoss);
     // manual journal persist + process crash: persist(Buffer) is the fence
     crash_explore_mode(&mut o, &plans(tier, true), Instant::now() + s(if q { 12.0 } else { 300.0 }), q, 0, "crash_manual_", CrashMode::Crash);
-    o.cov("rule", json!("programs = all maximal programs up to the depth over {insert, batch with durability None/Buffer/SyncData/SyncAll, transaction with durability, persist(Buffer|SyncData|SyncAll), rotate, every queued worker message with and without journal rotation, reopen (= clean drop)}, with automatic and with manual journal persist; each runs once under the shim, which keeps a shadow 'durable' tree (a file's content as of its last fsync/fdatasync; directory operations kept) and images it before EVERY numbered call; every distinct power-loss image is recovered by the real code: open must succeed and the content must equal the model after p operations with fence <= p <= acked+1, where the fence is the last acknowledged persist(SyncData|SyncAll) / commit with such durability / finished journal rotation / database drop. With manual journal persist the same programs are also judged on process-crash images with persist(Buffer) (or any stronger fence) as the fence."));
+    // automatic journal persist + process crash: a batch or transaction committed with durability None is only safe
+    // after a later persist(Buffer) (or any write with the default durability)
+    crash_explore_mode(&mut o, &plans(tier, false), Instant::now() + s(if q { 10.0 } else { 300.0 }), q, 0, "crash_auto_", CrashMode::Crash);
+    o.cov("rule", json!("programs = all maximal programs up to the depth over {insert, batch with durability None/Buffer/SyncData/SyncAll, transaction with durability, persist(Buffer|SyncData|SyncAll), rotate, every queued worker message with and without journal rotation, reopen (= clean drop)}, with automatic and with manual journal persist; each runs once under the shim, which keeps a shadow 'durable' tree (a file's content as of its last fsync/fdatasync; directory operations kept) and images it before EVERY numbered call; every distinct power-loss image is recovered by the real code: open must succeed and the content must equal the model after p operations with fence <= p <= acked+1, where the fence is the last acknowledged persist(SyncData|SyncAll) / commit with such durability / finished journal rotation / database drop. With manual journal persist the same programs are also judged on process-crash images with persist(Buffer) (or any stronger fence) as the fence; with automatic persist likewise, where commits with durability None are only covered by a later fence."));
     o.assumptions = vec![
         "the power-loss adversary drops ALL file data that was not explicitly synced and keeps directory operations (weaker than a real disk, never stronger); reordering inside the device and loss of un-fsynced directory entries are not modelled".into(),
         "lsm-tree's raw-syscall rename of `current` is invisible to the shim: a file that appears without a visible creation is taken as synced (its temp file is fsynced before the rename)".into(),
